@@ -176,3 +176,26 @@ def dense_structure(rec, system, feats, expect_times=None, K=64, clause_prefix="
             missing = sorted(want - ends)[:4]
             bad("dense_cover", "piece_endpoints_differ_from_recorded_times", extra=extra, missing=missing, n_pieces=len(pieces), n_times=len(want))
     return ok
+
+
+def closing_rejection_target(make, max_steps=60000):
+    """Reference run of `make()` (a fresh system over the whole span): returns a target time such that a call to it meets a proposed
+    step > remaining span > acceptable step, i.e. the closing (clipped) step of the call is rejected and retried; None if no step of
+    the reference run was rejected."""
+    from vf.instrument import StepLog
+    ref = make()
+    rlog = StepLog(ref.integrator)
+    seg = call_integrate(ref, max_steps=max_steps, callback=lambda s_: rlog.attempts.append({"boundary": 1}))
+    closing_rejection_target.last_reference = (ref, seg)      # the caller may apply its oracle to the reference run as well
+    groups, cur = [], []
+    for a in rlog.attempts:
+        if "boundary" in a:
+            groups.append(cur)
+            cur = []
+        else:
+            cur.append(a)
+    cands = [g for k, g in enumerate(groups) if 2 <= k < len(groups) - 1 and len(g) >= 2 and abs(g[-1]["h"]) < abs(g[0]["h"])]
+    if not cands:
+        return None
+    g = cands[len(cands) // 2]
+    return float(g[0]["t"] + 0.5 * (g[0]["h"] + g[-1]["h"]))
